@@ -27,3 +27,22 @@ prop('C07', 'publication / race freedom through the container',
      'filled before it is published and read after an acquire (MP), debts are cleared only by a Release CAS keyed '
      'by the pointer (PAY-CAS).',
      'Sufficiency of these orderings for data-race freedom under C11 for every interleaving is NOT decided.')
+
+from . import progress as P
+
+prop('C08', 'reads are wait-free',
+     [P.rule_loop_free],
+     'Decides the statement in its static form on the instantiated reader call graph (load, load_full, guard '
+     'drop/into_inner/deref, Cache::load, every Access::load and guard deref; DefaultStrategy and the fallback-only '
+     'strategy; all pointer kinds of the configuration): acyclic, no blocking leaf, every loop is a constant-trip-count '
+     'scan (L-CONST), no compare_exchange_weak; cold edges (first use on a thread, TLS torn down, generation wrap) are cut and listed.',
+     'Step bounds inside std leaves (thread-local access, Arc::clone) are trusted by class, not analysed.')
+
+prop('C09', 'writers and guards never block',
+     [P.rule_no_block, P.rule_loop_class, P.rule_next_once],
+     'Decides on the instantiated writer/guard call graph under the Hybrid strategies: no blocking primitive reachable '
+     '(NO-BLOCK, with positive controls), every loop is of an admitted class whose back edge needs a completed foreign '
+     'write or the next array element / list node (LOOP-CLASS: L-CONST, L-CAS, L-CHANGED, L-LIST, L-INTERFERENCE), no '
+     'recursion, no loop waits on a debt slot; Node.next is written once before publication (NEXT-ONCE).',
+     'A numeric step bound for CAS loops under contention is not decided (lock-free, not wait-free); spurious '
+     'compare_exchange_weak failures are trusted to be finite.')
